@@ -191,6 +191,70 @@ def countPairs {α} (p : α → α → Bool) : List α → Nat
 
 def drawingCrossings (o : Out) : Nat := countPairs segCross (o.edges.flatMap (edgeSegments o))
 
+/-! ### drawn orientation (C11, C14) -/
+abbrev DEdge := String × String
+
+/-- the edges as drawn: an edge flagged ArrowHeadStart is drawn from ToID to FromID; self-loops are not drawn -/
+def drawnEdges (o : Out) : List DEdge :=
+  (o.edges.filter fun e => e.src != e.dst).map fun e => if e.ahs then (e.dst, e.src) else (e.src, e.dst)
+
+/-- Kahn: no directed cycle -/
+def acyclicD (es : List DEdge) : Bool :=
+  let ids := dedup (es.flatMap fun e => [e.1, e.2])
+  let rec go (fuel : Nat) (remaining : List String) (es : List DEdge) : Bool :=
+    match fuel with
+    | 0 => remaining.isEmpty
+    | fuel + 1 =>
+      match remaining.find? (fun v => !es.any (·.2 == v)) with
+      | none => remaining.isEmpty
+      | some v => go fuel (remaining.filter (· != v)) (es.filter (·.1 != v))
+  go (ids.length + 1) ids es
+
+/-- number of nodes on the longest path starting at v (on an acyclic edge list; fuel = number of nodes) -/
+def lpFrom (es : List DEdge) : Nat → String → Nat
+  | 0, _ => 0
+  | fuel + 1, v => 1 + ((es.filter (·.1 == v)).map fun e => lpFrom es fuel e.2).foldl max 0
+
+/-- C11: per component, bands = nodes on a longest path; a node is lp(v) − 1 bands above the bottom band -/
+def c11 (o : Out) : Bool :=
+  let es := drawnEdges o
+  acyclicD es &&
+  (comps o).all fun c =>
+    let ns := (compNodes o c).filter (!·.virt)
+    let n := ns.length
+    let lps := ns.map fun v => lpFrom es n v.id
+    let maxlp := lps.foldl max 0
+    let bottom := (ns.map (·.layer)).foldl max 0
+    let top := (ns.map (·.layer)).foldl min bottom
+    (bottom - top + 1 == (maxlp : Int)) &&
+    (ns.zip lps).all fun (v, l) => bottom - v.layer == (l : Int) - 1
+
+/-- C14: un-reversing any single flagged edge re-creates a directed cycle among the edges as drawn -/
+def c14_minimal (o : Out) : Bool :=
+  let es := (o.edges.filter fun e => e.src != e.dst)
+  let drawn (flip : Nat) : List DEdge :=
+    es.zipIdx.map fun (e, i) => if e.ahs && i != flip then (e.dst, e.src) else (e.src, e.dst)
+  acyclicD (drawn es.length) &&
+  es.zipIdx.all fun (e, i) => !e.ahs || !acyclicD (drawn i)
+
+/-- the input is a rooted tree with all edges pointing away from the root, or all toward it -/
+def isRootedTree (es : InEdges) : Bool :=
+  let ids := inputIds es
+  let simple := allPairs (fun a b => a != b) es && es.all (fun e => e.1 != e.2)
+  -- connected: grow the reachable set from the first id, ignoring direction
+  let rec grow (fuel : Nat) (seen : List String) : List String :=
+    match fuel with
+    | 0 => seen
+    | fuel + 1 =>
+      let next := dedup (seen ++ (es.filter (fun e => seen.contains e.1 || seen.contains e.2)).flatMap fun e => [e.1, e.2])
+      if next.length == seen.length then seen else grow fuel next
+  let connected := match ids with
+    | [] => false
+    | r :: _ => (grow ids.length [r]).length == ids.length
+  let outTree := ids.all fun v => (es.filter (·.2 == v)).length ≤ 1
+  let inTree := ids.all fun v => (es.filter (·.1 == v)).length ≤ 1
+  simple && connected && es.length + 1 == ids.length && (outTree || inTree)
+
 /-! ### C16 -/
 def bandsOf (o : Out) : List (List ONode) :=
   (dedup (o.nodes.map (·.layer))).map fun l => o.nodes.filter (·.layer == l)
